@@ -1045,6 +1045,7 @@ func (c *pieceCtx) r7(rule string) {
 	// ... at the offset it occupies: the upload path computes the byte offset in 64-bit arithmetic
 	uploadOffset64(r, rule)
 	pieceSizeProducts64(r, rule)
+	offsetsNotNarrowed(r, rule)
 	r.Sentinel(rule, n, 3)
 }
 
